@@ -31,6 +31,7 @@ KEY_D3 = "markGoalState-unsorted"
 KEY_D8 = "storage-start-and-goal-vertex"
 KEY_CLEAR = "clear-keeps-index-map-and-marks"
 KEY_XKIND = "wrong-kind-archive-bad-alloc"
+KEY_LOOP = "removeVertex-self-loop-double-delete"
 
 
 def _dir():
@@ -114,6 +115,8 @@ def _key_for(fail):
     parts = head.split(":")
     if parts[0] == "pd-roundtrip-start-and-goal":
         return KEY_D8
+    if parts[0] == "crash" and len(parts) > 1 and parts[1] == "RemoveVertex-self-loop":
+        return KEY_LOOP
     if parts[0] == "Clear" or (len(parts) > 1 and parts[0] == "return" and parts[1] == "Clear"):
         return KEY_CLEAR
     sc = fail.get("scenario")
@@ -414,7 +417,7 @@ def run(tier):
     ck.set("fault_scenarios_in_table", len(table_keys))
     ck.set("fault_scenarios_replayed", len(set(hits) & table_keys))
     ck.set("truncation_offsets_tried", counters.get("ss_truncations", 0) + counters.get("pd_truncations", 0))
-    if not ck.violations and not ck.known_hits:
+    if not ck.violations:   # a crashed shard already is a verdict; a known finding removes no coverage
         need = ["shapes_replayed", "shapes_zero_length", "shapes_wrapped", "pairs_ret0", "pairs_ret1", "pairs_ret2",
                 "pairs_with_transfer", "ss_same_signature_accepted", "ss_other_signature_rejected",
                 "pd_same_signature_accepted", "pd_other_signature_rejected", "pd_other_control_signature_rejected",
